@@ -365,6 +365,37 @@ def judge(args, agg, i5, pool, tier, nb, harness_problem):
                 note = "minimised with %d replays" % m.n_replays
             else:
                 note = "minimiser could not reproduce; original kept"
+        # The replay command runs the file in a brand-new interpreter; confirm there that what
+        # is about to be reported reproduces (a change whose effect depends on memory addresses
+        # or allocator state may reproduce in the long-lived worker that minimised it only).
+        stability = "not checked"
+        if n < MAX_MINIMISE and not args.no_minimise:
+            def fresh_ok(sc_, ops_):
+                p1 = Pool(args.repo, {"F": (1, 1001)})
+                try:
+                    r1 = p1.submit({"t": "replay", "scenario": sc_, "ops": ops_}, "F").result()
+                finally:
+                    p1.close()
+                if r1.get("status") != "violation":
+                    return None
+                for v1 in r1["violations"]:
+                    f1 = findings.features(v1, sc_, r1.get("events"))
+                    if findings.violation_class(f1) == cls:
+                        return (v1, r1)
+                return None
+
+            got = fresh_ok(sc, ops)
+            if got:
+                hit = got
+                stability = "reproduced in a fresh interpreter"
+            else:
+                got = fresh_ok(res["scenario"], res["ops"]) if ops is not res["ops"] else None
+                if got:
+                    sc, ops, hit = res["scenario"], res["ops"], got
+                    note += "; minimised form did not reproduce in a fresh interpreter, original history kept"
+                    stability = "original reproduced in a fresh interpreter"
+                else:
+                    stability = "UNSTABLE: did not reproduce in a fresh interpreter (address/allocator dependent?)"
         vv = hit[0]
         name = "%sC18-%s-%s.json" % (args.out_prefix, hashlib.sha1(cls.encode()).hexdigest()[:8], sc["run_seed"])
         path = os.path.join(VERIF, "replays", name)
@@ -373,11 +404,11 @@ def judge(args, agg, i5, pool, tier, nb, harness_problem):
                 "format": 1, "property": "C18", "class": cls, "scenario": sc, "ops": ops,
                 "violation": vv, "features": findings.features(vv, sc, hit[1].get("events")),
                 "found_by": {"seed": args.seed, "tier": args.tier, "run_seed": res["run_seed"],
-                             "minimised_from_steps": minimised_from, "note": note},
+                             "minimised_from_steps": minimised_from, "note": note, "replay_stability": stability},
                 "occurrences_in_batch": len(items),
             }, f, indent=1)
         lines.append("VIOLATION property=C18 replay=%s" % path)
-        lines.append("  class: %s (%d runs) %s" % (cls, len(items), note))
+        lines.append("  class: %s (%d runs) %s; %s" % (cls, len(items), note, stability))
         lines.append("  %s %s observed=%s expected=%s" % (vv["invariant"], json.dumps(vv["path"]), vv["observed"][1][:100], vv["expected"][1][:100]))
 
     for d in i5:
